@@ -350,6 +350,14 @@ class IOPort(BaseIOPort):
     def _receive(self, block=True):
         return self.input.receive(block=block)
 
+    def receive(self, block=True):
+        # The message queue belongs to the input port and this wrapper
+        # has no lock of its own, so the queue is only ever touched by
+        # the input port itself (under its lock).
+        return self.input.receive(block=block)
+
+    receive.__doc__ = BaseIOPort.receive.__doc__
+
 
 class EchoPort(BaseIOPort):
     def _send(self, message):
